@@ -55,14 +55,20 @@ def _data_points(args):
     return res
 
 
+KEYWORD_SPELLINGS = ('string\t', '\tstring ', '  string\t', '    string ')
+
+
 def _string_points(pts):
     res = []
-    for cps, expected in pts:
+    # the keyword as documented, and (one per point, in turn) the spellings every other directive tolerates (C13 lists them as free): a tab
+    # instead of the blank behind the keyword, an indented line - the text and its escape processing are the same
+    for n, (cps, expected) in enumerate(pts):
         text = ''.join(chr(c) for c in cps)
-        src = 'string ' + text + '\n'
-        rec = impl.assemble_recorded(src, compress=False)
-        got = list(rec['out']) if rec['status'] == 'ok' else None
-        res.append((cps, src, expected, got, rec['status'] if rec['status'] != 'ok' else 'ok'))
+        for kw in ('string ', KEYWORD_SPELLINGS[n % len(KEYWORD_SPELLINGS)]):
+            src = kw + text + '\n'
+            rec = impl.assemble_recorded(src, compress=False)
+            got = list(rec['out']) if rec['status'] == 'ok' else None
+            res.append((cps, src, expected, got, rec['status'] if rec['status'] != 'ok' else 'ok'))
     return res
 
 
@@ -205,7 +211,7 @@ def c10(run, scratch):
                 total += 1
                 if got != expected:
                     nonascii = any(c > 127 for c in cps)
-                    run.violation('StringUtf8AfterEscapes', {'non_ascii': nonascii, 'has_escape': 92 in cps},
+                    run.violation('StringUtf8AfterEscapes', {'non_ascii': nonascii, 'has_escape': 92 in cps, 'keyword': repr(src[:src.lower().index('string') + 7])},
                                   {'source': src, 'code_points': cps, 'expected': expected, 'emitted': got, 'status': status})
     # include_bytes
     ib = _include_bytes_scenarios((scratch, run.seed))
